@@ -10,6 +10,7 @@ import Anko.Model.Codec
 import Anko.Model.BinOp
 import Anko.Model.FloatImpl
 import Anko.Model.Cli
+import Anko.Model.Builtins
 
 open Anko
 
@@ -71,8 +72,30 @@ def handleCli (args : List Sexp) : String :=
     | _, _ => "bad-args"
   | _ => "bad-args"
 
+def handleRange (args : List Sexp) : String :=
+  match args.mapM (fun a => match a with | .atom x => x.toInt? | _ => none) with
+  | none => "bad-args"
+  | some xs => match rangeBuiltin xs with
+    | .ok l => "ok (l" ++ String.join (l.map (fun i => s!" (i {i})")) ++ ")"
+    | .error m => "err " ++ m
+
+def optShow {α : Type} (o : Option α) (f : α → String) : String :=
+  match o with | some x => "ok " ++ f x | none => "unsupported"
+
+def handleBuiltin (name : String) (v : Val) : String :=
+  match name with
+  | "toInt" => optShow (toIntB v) (fun i => encodeVal (.int i))
+  | "toFloat" => optShow (toFloatB v) (fun f => encodeVal (.float f))
+  | "toString" => optShow (toStringB v) (fun s => encodeVal (.str s))
+  | "toBool" => optShow (toBoolB v) (fun b => encodeVal (.bool b))
+  | "typeOf" => optShow (typeOfV v) (fun s => encodeVal (.str (strBytes s)))
+  | "kindOf" => optShow (kindOfV v) (fun s => encodeVal (.str (strBytes s)))
+  | _ => "bad-op"
+
 def handleOps (cmd : String) (args : List Sexp) : String :=
   match cmd, args with
+  | "range", args => handleRange args
+  | "builtin", [.atom name, v] => (match decodeVal 1000 v with | some x => handleBuiltin name x | none => "bad-args")
   | "cli", args => handleCli args
   | "binop", [.atom op, a, b] =>
     (match decodeRV a, decodeRV b with
